@@ -104,8 +104,39 @@ def read(rel):
         if not os.path.isfile(p):
             return None
         with open(p, encoding="utf-8") as fh:
-            _files[rel] = fh.read()
+            _files[rel] = strip_verif_items(fh.read())
     return _files[rel]
+
+
+def strip_verif_items(text):
+    """The instrumentation under `#[cfg(nomt_verif)]` is not part of the code under study: blank out every item that
+    attribute guards (a `mod … { … }` / `impl` / `fn` block up to its matching brace, or a one-line item up to `;`),
+    keeping the line structure so that reported line numbers stay true."""
+    out = list(text)
+    for m in re.finditer(r"#\[cfg\(nomt_verif\)\]", text):
+        i = m.end()
+        # the guarded item ends at the first `;` at brace depth 0 or at the brace matching the first `{`
+        depth, j, seen_brace = 0, i, False
+        while j < len(text):
+            c = text[j]
+            if c == "{":
+                depth += 1
+                seen_brace = True
+            elif c == "}":
+                depth -= 1
+                if seen_brace and depth == 0:
+                    j += 1
+                    break
+                if depth < 0:
+                    break
+            elif c == ";" and depth == 0:
+                j += 1
+                break
+            j += 1
+        for k in range(m.start(), min(j, len(text))):
+            if out[k] != "\n":
+                out[k] = " "
+    return "".join(out)
 
 
 def all_rs():
